@@ -150,8 +150,50 @@ class Program(object):
         self.parse_errors = []
         self._load()
         self._resolve_bases()
+        if not os.environ.get("WV_NO_SUPERNORM"):
+            self._explicit_base_calls()
         if not os.environ.get("WV_NO_KWNORM"):
             self._positional_normal_form()
+
+    def _explicit_base_calls(self):
+        """Whole-program normal form N22: inside a method of class K, `super().m(a)` / `super(K, self).m(a)` is written as the explicit
+        call `B.m(self, a)`, B being the first class after K in K's own MRO that defines m -- provided the name B means that class in
+        the method's module (else the call is left alone).  Rules then read one spelling of "call the base implementation"."""
+        from . import norm
+        for f in list(self.functions.values()):
+            if f.cls is None or not f.params or f.params[0] != "self" or "staticmethod" in f.decorators or "classmethod" in f.decorators:
+                continue
+            changed = False
+            for c in norm.calls_in(f.node, include_nested_defs=False):
+                fn = c.func
+                if not (isinstance(fn, ast.Attribute) and isinstance(fn.value, ast.Call) and isinstance(fn.value.func, ast.Name)
+                        and fn.value.func.id == "super" and not fn.value.keywords):
+                    continue
+                sa = fn.value.args
+                if not (len(sa) == 0 or (len(sa) == 2 and isinstance(sa[0], ast.Name) and sa[0].id == f.cls.name
+                                         and isinstance(sa[1], ast.Name) and sa[1].id == "self")):
+                    continue
+                target = None
+                for k in self.mro(f.cls)[1:]:
+                    if isinstance(k, str):
+                        break
+                    if fn.attr in k.methods:
+                        target = k
+                        break
+                if target is None:
+                    continue
+                try:
+                    r = self.resolve_in_func(f, ast.Name(id=target.name, ctx=ast.Load()))
+                except Exception:
+                    r = None
+                if r is None or r[0] != "class" or r[1] is not target:
+                    continue
+                c.func = ast.copy_location(ast.Attribute(value=ast.copy_location(ast.Name(id=target.name, ctx=ast.Load()), fn), attr=fn.attr,
+                                                         ctx=ast.Load()), fn)
+                c.args.insert(0, ast.copy_location(ast.Name(id="self", ctx=ast.Load()), fn))
+                changed = True
+            if changed and hasattr(norm, "invalidate"):
+                norm.invalidate(f.node)
 
     def _positional_normal_form(self):
         """Whole-program normal form N17: in a call that resolves to exactly one project function, keyword arguments that name the
